@@ -249,10 +249,15 @@ type recorder struct {
 	events  []vtrace.Event
 	lastSig string
 	reqs    int
+	muted   bool // the prior phase of the scenario: nothing is recorded
 }
 
 func (r *recorder) emit(ev vtrace.Event) {
 	r.mu.Lock()
+	if r.muted {
+		r.mu.Unlock()
+		return
+	}
 	r.events = append(r.events, ev)
 	r.mu.Unlock()
 }
@@ -360,6 +365,12 @@ func (w *world) key(rq *simreg.Request) (side, class, n string) {
 // onRequest is simreg's After callback for every host of the scenario.
 func (r *recorder) onRequest(rq *simreg.Request) {
 	w := r.w
+	r.mu.Lock()
+	muted := r.muted
+	r.mu.Unlock()
+	if muted {
+		return
+	}
 	side, class, n := w.key(rq)
 	ev := vtrace.Event{"ev": "req", "seq": rq.Seq, "side": side, "class": class, "n": n, "st": rq.Status,
 		"flt": b2i(rq.Faulted || rq.Truncated), "data": len(rq.Body)}
